@@ -1076,3 +1076,333 @@ def gen_grad_step(ad: ast.AST) -> str:
                 env["wrt.name"] = ("wrt.name", "Str")
             out.append(f"  | .{ctor} {binders} => " + comp.block(stmts, env, "      "))
     return "\n".join(out) + "\n"
+
+
+# ======================================================================================================
+#  analysis.py: the three recursive extractors of the LP route, in the Except monad
+#     _extract_constant_impl(expr)                                   : Except Err Rat
+#     _extract_coefficient_impl(expr, var)                           : Except Err Rat
+#     _extract_all_coefficients_impl(expr, var_index, result, mult)  : Except Err (List Rat)   (state = result)
+# ======================================================================================================
+
+class MCompiler:
+    def __init__(self, mode: str, rec: dict[str, str]):
+        self.mode = mode          # "value" | "walk"
+        self.rec = rec            # python function name -> lean parameter name
+        self.fresh = 0
+
+    def new(self, b):
+        self.fresh += 1
+        return f"{b}{self.fresh}"
+
+    # ---- Rat-valued expressions: returns (bindings, term) -------------------------------------------------
+    def rat(self, node, env):
+        key = ast.unparse(node)
+        if key in env and env[key][1] == "Rat":
+            return [], env[key][0]
+        if isinstance(node, ast.Constant) and isinstance(node.value, (int, float)) and not isinstance(node.value, bool):
+            return [], lean_rat(node.value)
+        if isinstance(node, ast.UnaryOp) and isinstance(node.op, ast.USub):
+            b, t = self.rat(node.operand, env)
+            return b, f"(-{t})"
+        if isinstance(node, ast.IfExp):
+            b1, t1 = self.rat(node.body, env)
+            b2, t2 = self.rat(node.orelse, env)
+            if b1 or b2:
+                raise TranslateError(f"effects inside a conditional expression (line {node.lineno})")
+            return [], f"(if {self.cond(node.test, env)} then {t1} else {t2})"
+        if isinstance(node, ast.Call) and isinstance(node.func, ast.Name):
+            fn = node.func.id
+            if fn == "float" and len(node.args) == 1:
+                a = node.args[0]
+                ak = ast.unparse(a)
+                if ak in env and env[ak][1] == "Cst":
+                    q = self.new("q")
+                    return [f"let {q} ← cstRat {env[ak][0]}"], q
+                if isinstance(a, ast.Call) and ast.unparse(a.func) == "len" and len(a.args) == 1:
+                    lk = ast.unparse(a.args[0])
+                    if lk in env and env[lk][1] == "VarL":
+                        return [], f"(({env[lk][0]}.length : Nat) : Rat)"
+                return self.rat(a, env)
+            if fn in self.rec and self.rec[fn][1] == "value":
+                arg = ast.unparse(node.args[0])
+                if arg not in env or env[arg][1] != "Expr":
+                    raise TranslateError(f"recursive call on something that is not a known sub-expression: {ast.unparse(node)!r}")
+                if len(node.args) == 2 and ast.unparse(node.args[1]) != "var":
+                    raise TranslateError(f"recursive call with a different variable: {ast.unparse(node)!r}")
+                v = self.new("a")
+                return [f"let {v} ← {self.rec[fn][0]} {env[arg][0]}"], v
+        if isinstance(node, ast.BinOp):
+            bl, tl = self.rat(node.left, env)
+            if isinstance(node.op, ast.Pow):
+                rk = ast.unparse(node.right)
+                if rk in env and env[rk][1] == "Int":
+                    v = self.new("p")
+                    return bl + [f"let {v} ← ratPowInt {tl} {env[rk][0]}"], v
+                raise TranslateError(f"power with an exponent that is not a known int (line {node.lineno})")
+            br, tr = self.rat(node.right, env)
+            if isinstance(node.op, ast.Div):
+                v = self.new("d")
+                return bl + br + [f"let {v} ← ratDiv {tl} {tr}"], v
+            op = {ast.Add: "+", ast.Sub: "-", ast.Mult: "*"}.get(type(node.op))
+            if op:
+                return bl + br, f"({tl} {op} {tr})"
+        raise TranslateError(f"unsupported numeric expression {ast.unparse(node)!r} at line {getattr(node, 'lineno', '?')}")
+
+    def cond(self, node, env) -> str:
+        if isinstance(node, ast.Compare) and len(node.ops) == 1 and isinstance(node.ops[0], ast.Eq):
+            l, r = node.left, node.comparators[0]
+            lk = ast.unparse(l)
+            if lk in env and env[lk][1] in ("BinOp", "UnOp") and isinstance(r, ast.Constant):
+                tag = BINOP_NAMES[r.value] if env[lk][1] == "BinOp" else r.value
+                return f"({env[lk][0]} == .{tag})"
+            if lk in env and env[lk][1] in ("Rat", "Int") and isinstance(r, ast.Constant) and isinstance(r.value, int):
+                return f"({env[lk][0]} == {r.value})"
+            if lk.endswith(".degree") and lk[:-7] in env and env[lk[:-7]][1] == "Expr" and isinstance(r, ast.Constant):
+                return f"(degree {env[lk[:-7]][0]} == some {r.value})"
+            if lk.endswith(".name") and ast.unparse(r) == "var.name" and lk[:-5] in env and env[lk[:-5]][1] == "Var":
+                return f"({env[lk[:-5]][0]}.name == x)"
+        raise TranslateError(f"unsupported condition {ast.unparse(node)!r} at line {getattr(node, 'lineno', '?')}")
+
+    # ---- blocks ------------------------------------------------------------------------------------------
+    def do(self, binds, last, ind):
+        if not binds:
+            return last
+        nl = "\n" + ind + "  "
+        return "do" + nl + nl.join(binds) + nl + last
+
+    def block(self, stmts, env, ind, r="r") -> str:
+        stmts = [s for s in stmts if not RuleCompiler.skip(s)]
+        nl = "\n" + ind
+        if not stmts:
+            if self.mode == "walk":          # falling off the end of the walker = `return`
+                return f"pure {r}"
+            raise TranslateError("control reaches the end of the function body")
+        s, rest = stmts[0], stmts[1:]
+        if isinstance(s, ast.Return):
+            if self.mode == "walk":
+                if s.value is not None:
+                    raise TranslateError(f"the walker returns a value (line {s.lineno})")
+                return f"pure {r}"
+            b, t = self.rat(s.value, env)
+            return self.do(b, f"pure {t}", ind)
+        if isinstance(s, ast.Assign) and len(s.targets) == 1 and isinstance(s.targets[0], ast.Name):
+            name, val = s.targets[0].id, s.value
+            u = ast.unparse(val)
+            env2 = dict(env)
+            # exp = int(expr.right.value)
+            if isinstance(val, ast.Call) and ast.unparse(val.func) == "int" and len(val.args) == 1:
+                ak = ast.unparse(val.args[0])
+                if ak in env and env[ak][1] == "Cst":
+                    env2[name] = (f"(cstInt {env[ak][0]})", "Int")
+                    return self.block(rest, env2, ind, r)
+            # idx = var_index.get(X.name); if idx is not None: result[idx] += Q
+            if self.mode == "walk" and isinstance(val, ast.Call) and ast.unparse(val.func) == "var_index.get" and len(val.args) == 1:
+                t, q = self.add_name(name, val.args[0], rest, env)
+                if t is not None:
+                    r2 = self.new("res")
+                    b, qt = q
+                    return self.do(b + [f"let {r2} := addName V {r} {t} {qt}"], self.block(rest[1:], env, ind + "  ", r2), ind)
+            # total = 0.0; for i, elem in enumerate(ES): total += float(cs[i]) * rec(elem[, var]); return total
+            if self.mode == "value" and u in ("0.0", "0") and len(rest) == 2 and isinstance(rest[0], ast.For) \
+                    and isinstance(rest[1], ast.Return) and ast.unparse(rest[1].value) == name:
+                f = rest[0]
+                m = re.fullmatch(r"for i, elem in enumerate\((.+)\):\n    " + re.escape(name)
+                                 + r" \+= float\((.+)\[i\]\) \* (\w+)\(elem(, var)?\)", ast.unparse(f))
+                if m and m.group(1) in env and env[m.group(1)][1] == "ExprList" and m.group(2) in env \
+                        and env[m.group(2)][1] == "RatList" and m.group(3) in self.rec and self.rec[m.group(3)][1] == "value":
+                    return f"lcLoop {self.rec[m.group(3)][0]} {env[m.group(1)][0]}.toList {env[m.group(2)][0]} 0"
+            raise TranslateError(f"unsupported assignment {name} = {u[:60]!r} at line {s.lineno}")
+        if isinstance(s, ast.Expr) and isinstance(s.value, ast.Call) and self.mode == "walk":
+            c = s.value
+            fn = ast.unparse(c.func)
+            if fn in self.rec and self.rec[fn][1] == "walk" and len(c.args) == 4 \
+                    and ast.unparse(c.args[1]) == "var_index" and ast.unparse(c.args[2]) == "result":
+                ak = ast.unparse(c.args[0])
+                if ak not in env or env[ak][1] != "Expr":
+                    raise TranslateError(f"recursive call on something that is not a known sub-expression (line {s.lineno})")
+                b, mt = self.rat(c.args[3], env)
+                r2 = self.new("res")
+                return self.do(b + [f"let {r2} ← {self.rec[fn][0]} {env[ak][0]} {r} {mt}"], self.block(rest, env, ind + "  ", r2), ind) \
+                    if rest else self.do(b, f"{self.rec[fn][0]} {env[ak][0]} {r} {mt}", ind)
+        if isinstance(s, ast.For):
+            return self.loop(s, rest, env, ind, r)
+        if isinstance(s, ast.If):
+            return self.if_(s, rest, env, ind, r)
+        if isinstance(s, (ast.ImportFrom, ast.Import)):
+            return self.block(rest, env, ind, r)
+        raise TranslateError(f"unsupported statement {ast.unparse(s)[:70]!r} at line {s.lineno}")
+
+    def add_name(self, idx, namearg, rest, env):
+        """the two-statement idiom `idx = var_index.get(X.name)` / `if idx is not None: result[idx] += Q`"""
+        nk = ast.unparse(namearg)
+        if not nk.endswith(".name") or nk[:-5] not in env or env[nk[:-5]][1] != "Var":
+            return None, None
+        if not rest or not isinstance(rest[0], ast.If) or rest[0].orelse or ast.unparse(rest[0].test) != f"{idx} is not None":
+            return None, None
+        body = rest[0].body
+        if not (len(body) == 1 and isinstance(body[0], ast.AugAssign) and isinstance(body[0].op, ast.Add)
+                and ast.unparse(body[0].target) == f"result[{idx}]"):
+            return None, None
+        return f"{env[nk[:-5]][0]}.name", self.rat(body[0].value, env)
+
+    def loop(self, f: ast.For, rest, env, ind, r):
+        if f.orelse:
+            raise TranslateError(f"for/else at line {f.lineno}")
+        text = ast.unparse(f)
+        it = f.iter
+        idx = None
+        if isinstance(it, ast.Call) and ast.unparse(it.func) == "enumerate" and isinstance(f.target, ast.Tuple):
+            idx, var = f.target.elts[0].id, f.target.elts[1].id
+            it = it.args[0]
+        elif isinstance(f.target, ast.Name):
+            var = f.target.id
+        else:
+            raise TranslateError(f"unsupported loop target at line {f.lineno}")
+        ik = ast.unparse(it)
+        if ik not in env:
+            raise TranslateError(f"loop over something unknown: {ik!r} (line {f.lineno})")
+        lst, lty = env[ik]
+        body = [s for s in f.body if not RuleCompiler.skip(s)]
+        if self.mode == "walk":
+            if lty == "VarL" and len(body) == 2 and isinstance(body[0], ast.Assign):
+                env2 = dict(env); env2[var] = ("§v", "Var")
+                cs = None
+                if idx is not None:      # result[idx] += float(coeffs[i]) * multiplier
+                    for k, v in env.items():
+                        if v[1] == "RatList":
+                            env2[f"float({k}[{idx}])"] = ("§c", "Rat")
+                            env2[f"{k}[{idx}]"] = ("§c", "Rat")
+                            cs = v[0]
+                t, q = self.add_name(body[0].targets[0].id, body[0].value.args[0] if isinstance(body[0].value, ast.Call) and body[0].value.args else body[0].value, body[1:], env2) \
+                    if isinstance(body[0].value, ast.Call) and ast.unparse(body[0].value.func) == "var_index.get" else (None, None)
+                if t == "§v.name" and not q[0]:
+                    r2 = self.new("res")
+                    if idx is None and "§" not in q[1]:
+                        return self.do([f"let {r2} := walkVars V {lst} {r} {q[1]}"], self.block(rest, env, ind + "  ", r2), ind)
+                    m = re.fullmatch(r"\(§c \* (.+)\)", q[1])
+                    if idx is not None and cs is not None and m and "§" not in m.group(1):
+                        return self.do([f"let {r2} ← walkLcVars V {lst} {cs} {r} {m.group(1)}"], self.block(rest, env, ind + "  ", r2), ind)
+            if lty == "ExprList" and idx is not None and len(body) == 2:
+                # coeff = float(cs[i]) * multiplier; rec(elem, var_index, result, coeff)
+                for k, v in env.items():
+                    if v[1] != "RatList":
+                        continue
+                    for fn, (par, kind) in self.rec.items():
+                        if kind != "walk":
+                            continue
+                        m = re.fullmatch(r"coeff = float\(" + re.escape(k) + r"\[" + idx + r"\]\) \* (\w+)\n"
+                                         + re.escape(fn) + r"\(" + var + r", var_index, result, coeff\)",
+                                         "\n".join(ast.unparse(b) for b in body))
+                        if m and m.group(1) in env and env[m.group(1)][1] == "Rat":
+                            r2 = self.new("res")
+                            return self.do([f"let {r2} ← walkLcLoop {par} {lst}.toList {v[0]} {r} {env[m.group(1)][0]}"],
+                                           self.block(rest, env, ind + "  ", r2), ind)
+            raise TranslateError(f"unsupported loop in the walker at line {f.lineno}: {text[:80]!r}")
+        # value mode: first-match searches
+        if lty == "VarL" and len(body) == 1 and isinstance(body[0], ast.If) and not body[0].orelse \
+                and ast.unparse(body[0].test) == f"{var}.name == var.name" and len(body[0].body) == 1 \
+                and isinstance(body[0].body[0], ast.Return):
+            ret = body[0].body[0].value
+            after = self.block(rest, env, ind + "  ", r)
+            if idx is None:
+                b, t = self.rat(ret, env)
+                if b:
+                    raise TranslateError(f"effects in a first-match result (line {f.lineno})")
+                return f"if {lst}.any (·.name == x) then pure {t} else\n{ind}  {after}"
+            m = re.fullmatch(r"float\((.+)\[" + idx + r"\]\)", ast.unparse(ret))
+            if m and m.group(1) in env and env[m.group(1)][1] == "RatList" and after == f"pure {lean_rat(0)}":
+                return f"coeffLcVars x {lst} {env[m.group(1)][0]}"
+        raise TranslateError(f"unsupported loop at line {f.lineno}: {text[:80]!r}")
+
+    def if_(self, s: ast.If, rest, env, ind, r):
+        nl = "\n" + ind
+        test = s.test
+        cont_body = s.body if always_returns(s.body) else s.body + rest
+        cont_else = (s.orelse if s.orelse and always_returns(s.orelse) else (s.orelse or []) + rest)
+        if isinstance(test, ast.Call) and isinstance(test.func, ast.Name) and test.func.id in ("isinstance", "hasattr") and len(test.args) == 2:
+            xk = ast.unparse(test.args[0])
+            what = ast.unparse(test.args[1]).strip("'\"")
+            if xk in env:
+                t, ty = env[xk]
+                if ty == "Expr" and what == "Constant":
+                    c = self.new("c")
+                    env2 = dict(env); env2[xk + ".value"] = (c, "Cst")
+                    return (f"match {t} with{nl}| .const {c} =>{nl}  {self.block(cont_body, env2, ind + '  ', r)}"
+                            f"{nl}| _ =>{nl}  {self.block(cont_else, env, ind + '  ', r)}")
+                if ty == "Vec" and what in ("VectorVariable", "_variables", "_expressions"):
+                    vv, es = self.new("vv"), self.new("es")
+                    envv = dict(env); envv[xk + "._variables"] = (f"{vv}.vars", "VarL")
+                    enve = dict(env); enve[xk + "._expressions"] = (es, "ExprList")
+                    if what == "_expressions":
+                        a = self.block(cont_body, enve, ind + "  ", r)
+                        b = self.block(cont_else, envv, ind + "  ", r)
+                        return f"match {t} with{nl}| .exprs {es} =>{nl}  {a}{nl}| .vars {vv} =>{nl}  {b}"
+                    a = self.block(cont_body, envv, ind + "  ", r)
+                    b = self.block(cont_else, enve, ind + "  ", r)
+                    return f"match {t} with{nl}| .vars {vv} =>{nl}  {a}{nl}| .exprs {es} =>{nl}  {b}"
+            raise TranslateError(f"unsupported type test {ast.unparse(test)!r} at line {s.lineno}")
+        c = self.cond(test, env)
+        return (f"if {c} then{nl}  {self.block(cont_body, env, ind + '  ', r)}{nl}else{nl}  "
+                f"{self.block(cont_else, env, ind + '  ', r)}")
+
+
+def _flatten_for_ctor(fn: ast.FunctionDef, cls: str) -> list[ast.stmt]:
+    """the statements of fn that a node of class `cls` executes: bodies of the top-level
+    `if isinstance(expr, C):` tests with cls in C are inlined (as `if True`), the other tests dropped"""
+    out = []
+    for s in fn.body:
+        if RuleCompiler.skip(s):
+            continue
+        if isinstance(s, ast.If) and not s.orelse:
+            cl = classes_of(s.test, "expr")
+            if cl is not None:
+                for c in cl:
+                    if c not in {k for k, _, _ in CTORS} | NON_SCALAR:
+                        raise TranslateError(f"{fn.name}: branch for a class unknown to the model: {c}")
+                if cls in cl:
+                    if always_returns(s.body):
+                        return out + list(s.body)
+                    out += list(s.body)
+                continue
+        out.append(s)
+    return out
+
+
+def gen_lp_steps(an: ast.AST) -> str:
+    specs = [
+        ("_extract_constant_impl", "constStepG", "value", ["expr"],
+         "(recK : Expr → Except Err Rat)", "Except Err Rat", ""),
+        ("_extract_coefficient_impl", "coeffStepG", "value", ["expr", "var"],
+         "(x : String) (recK : Expr → Except Err Rat) (recC : Expr → Except Err Rat)", "Except Err Rat", ""),
+        ("_extract_all_coefficients_impl", "walkStepG", "walk", ["expr", "var_index", "result", "multiplier"],
+         "(V : List String) (recK : Expr → Except Err Rat) (recW : Expr → List Rat → Rat → Except Err (List Rat))",
+         "List Rat → Rat → Except Err (List Rat)", " r m"),
+    ]
+    rec = {"_extract_constant_impl": ("recK", "value"), "_extract_coefficient_impl": ("recC", "value"),
+           "_extract_all_coefficients_impl": ("recW", "walk")}
+    out = []
+    for pyname, lname, mode, sig, params, rty, extra in specs:
+        fn = find_func(an, pyname)
+        if [a.arg for a in fn.args.args] != sig:
+            raise TranslateError(f"{pyname}: unexpected signature")
+        out.append(f"/-- `{pyname}`, one step (recursive calls are calls of the parameters) -/")
+        out.append(f"def {lname} {params} : Expr → {rty}")
+        for cls, ctor, fields in CTORS:
+            binders = " ".join(b for _, b, _ in fields)
+            env = {"multiplier": ("mult", "Rat")} if mode == "walk" else {}
+            for attr, b, ty in fields:
+                if attr:
+                    env[f"expr.{attr}"] = (b, ty)
+                if ty == "VVar":
+                    env[f"expr.{attr}._variables"] = (f"{b}.vars", "VarL")
+            if ctor == "var":
+                env["expr"] = ("x0", "Var")
+                binders = "x0"
+            comp = MCompiler(mode, rec)
+            stmts = _flatten_for_ctor(fn, cls)
+            body = comp.block(stmts, env, "      ", "res")
+            pat = f"| .{ctor} {binders}" + (", res, mult" if mode == "walk" else "")
+            out.append(f"  {pat} =>\n      {body}")
+        out.append("")
+    return "\n".join(out)
